@@ -836,24 +836,6 @@ spec fn module_ok(t: Seq<u8>, m: Module, cp: u16) -> bool {
         let ghost t = stream@;
         let ghost kk = it.index@ as int;
         let ghost mods0 = modules@;
-//@@ after /check_variable_record\([^;]*;/#0of6
-        let ghost t1 = stream@;
-        proof { assert(t1 == vr_rest(t)); }
-//@@ after /check_variable_record\([^;]*;/#1of6
-        let ghost t2 = stream@;
-        proof { assert(t2 == vr_rest(t1)); }
-//@@ after /check_variable_record\([^;]*;/#2of6
-        let ghost t3 = stream@;
-        proof { assert(t3 == vr_rest(t2)); }
-//@@ after /check_variable_record\([^;]*;/#3of6
-        let ghost t4 = stream@;
-        proof { assert(t4 == vr_rest(t3)); }
-//@@ after /check_variable_record\([^;]*;/#4of6
-        let ghost t5 = stream@;
-        proof { assert(t5 == vr_rest(t4)); }
-//@@ after /check_variable_record\([^;]*;/#5of6
-        let ghost t6 = stream@;
-        proof { assert(t6 == vr_rest(t5)); assert(t6 == mod_offset_rec(t)); }
 //@@ loop 1
             invariant_except_break
                 mod_flags_rest(u0) == mod_flags_rest(stream@),
